@@ -253,6 +253,10 @@ class World:
                 ctx.count("degenerate_command_not_generated_" + op)
                 self.executed.pop()
                 return
+            if op == "delay":
+                self.delay_block(tok[1], before)
+                self.check_stack(op)
+                return
             if op == "observe":
                 self.observe()
                 self.check_stack(op)
@@ -363,6 +367,122 @@ class World:
             self.fail("exception", {"exc": exc_name(exc)}, {"message": repr(exc)[:300]})
         self.check_stack(op)
 
+    # ---- several stack operations inside ONE hub.delay_callbacks() block
+    def delay_block(self, subs, before):
+        """do / undo / redo executed while the hub queues every message; states inside the block are not quiescent, so the
+        oracle looks only at the state after the block closes: it must be the one recorded for the stack position the
+        block ends in (before the do for a final undo, after it for a final redo), provided the block started from the
+        state recorded for the position it started in."""
+        ctx = self.ctx
+        ops = []            # effective (op, entry) pairs in order
+        touched = []
+        if self.m_done:
+            ref = self.m_done[-1]["A"]
+        elif self.m_undone:
+            ref = self.m_undone[-1]["B"]
+        else:
+            ref = before
+        self.info["in_delay_block"] = True
+        self.flags.add("delay_block")
+        with self.dc.hub.delay_callbacks():
+            for sub in subs:
+                sop = sub[0]
+                if sop in ("undo", "redo"):
+                    src, dst = (self.m_done, self.m_undone) if sop == "undo" else (self.m_undone, self.m_done)
+                    real = self.r_undo if sop == "undo" else self.r_redo
+                    if not src:
+                        try:
+                            real()
+                        except IndexError:
+                            ctx.count("empty_stack_indexerror_as_documented")
+                            continue
+                        self.fail("undo_or_redo_possible_on_empty_model_stack", {"which": sop}, {})
+                    ent = src[-1]
+                    if ent.get("failed"):
+                        continue
+                    self.info["cmd"] = ent["cmd"]
+                    real()
+                    src.pop()
+                    dst.append(ent)
+                    if sop == "redo":
+                        ent["redone"] = ent.get("redone", 0) + 1
+                        ent["serial"] = self.serial
+                    ops.append((sop, ent))
+                    touched.append(ent)
+                    ctx.count("delay_block_" + sop)
+                elif sop in ("add", "rem", "apply", "roi"):
+                    if sop in ("add", "rem") and (sop == "add") == is_in(self.data(sub[1]), list(self.dc)):
+                        ctx.count("degenerate_command_not_generated_" + sop)
+                        continue
+                    cmd = self.make_cmd(sub)
+                    self.info["cmd"] = type(cmd).__name__
+                    self.r_do(cmd)
+                    ent = {"cmd": type(cmd).__name__, "obj": cmd, "B": before if not ops else None, "A": None, "partial": False,
+                           "serial": self.serial, "created_group": False, "changed": True,
+                           "name": sub[1] if sop in ("add", "rem") else None}
+                    self.m_done.append(ent)
+                    self.m_done = self.m_done[-MAX_UNDO:]
+                    self.m_undone = []
+                    ops.append(("do", ent))
+                    touched.append(ent)
+                    ctx.count("delay_block_do")
+        after = self.snap()
+        self.cur = after
+        self.undo_run = 0
+        ctx.count("delay_blocks_run")
+        ctx.count("delay_block_stack_operations", len(ops))
+        for n in set(after[0]["datasets_sorted"]) - set(before[0]["datasets_sorted"]):
+            self.join_serial[n] = self.serial
+        if not ops:
+            return
+        last_op, last = ops[-1]
+        if last_op == "do":
+            last["A"] = after
+            last["created_group"] = len(after[0]["groups"]) > len(before[0]["groups"]) and len(ops) == 1
+            ctx.count("delay_block_ending_in_do_recorded")
+            return
+        self.info["step"] = last_op
+        self.info["cmd"] = last["cmd"]
+        self.info["ent"] = last
+        # chain the recorded states through the operations of the block, with the same preconditions as outside a block
+        expected, partial, ok = ref, False, ref is not None
+        if ok:
+            d0 = diff_fields(before[0], ref[0])
+            if d0:
+                partial = set(d0) <= {"edit_subset", "mode"}
+                ok = partial
+        for o, ent in ops:
+            if not ok:
+                break
+            if o == "undo":
+                if ent["A"] is None or ent["B"] is None:
+                    ok = False
+                    break
+                d = diff_fields(expected[0], ent["A"][0])
+                if d and not set(d) <= {"edit_subset", "mode"}:
+                    ok = False
+                    break
+                partial = partial or bool(d)
+                expected = ent["B"]
+            elif o == "redo":
+                if ent["A"] is None or ent["B"] is None or partial or diff_fields(expected[0], ent["B"][0]):
+                    ok = False       # re-executed under another mode / edit subset or from an unrecorded state
+                    break
+                expected = ent["A"]
+            else:
+                ok = False           # a new command in the middle of the block has no recorded result
+        if ok:
+            self.compare(last_op, last, before, after, block={"want": expected, "ignore": ("edit_subset", "mode") if partial else ()})
+            ctx.count("compared_after_delay_block")
+            ctx.count("compared_after_delay_block_ending_in_" + last_op)
+            if any(e["cmd"] in ("AddData", "RemoveData") for _, e in ops) and len(after[0]["groups"]) > 0:
+                ctx.count("compared_after_delay_block_moving_datasets_with_groups_present")
+        else:
+            ctx.count("delay_block_not_compared_recorded_states_do_not_chain")
+            if any(o != "undo" for o, _ in ops):
+                for ent in touched:        # nothing quiescent is known about what these commands started from / produced
+                    ent["A"] = ent["B"] = None
+
     # ---- fault sequences: a command whose do() raises, followed by valid commands
     def fault_do(self, tok, before):
         ctx = self.ctx
@@ -439,27 +559,41 @@ class World:
         self.ctx.count("stack_model_comparisons")
 
     # ---- the oracle
-    def compare(self, op, ent, before, after):
+    def compare(self, op, ent, before, after, block=None):
         ctx = self.ctx
         want = ent["B"] if op == "undo" else ent["A"]
         # precondition of the statement: the step starts from the state recorded after the do (undo) / before it (redo).
         # It can only fail because the user changed mode / edit subset on the way (every earlier step was compared).
+        # block: for a delay block whose last operation is (op, ent), delay_block() has already chained the recorded states
+        # through every operation of the block: {"want": expected state after the block, "ignore": fields left out}
         ignore = ()
-        start_diff = diff_fields(before[0], (ent["A"] if op == "undo" else ent["B"])[0])
         ent["partial"] = False
-        if start_diff:
-            if op == "redo":
-                # redo re-executes the command under the current mode / edit subset: nothing can be demanded; re-base
-                ctx.count("redo_not_compared_state_before_differs_from_recorded")
-                ent["rebase"] = True
+        if block is not None:
+            want = block["want"]
+            ignore = block["ignore"]
+            ent["partial"] = bool(ignore)
+        else:
+            ref = ent["A"] if op == "undo" else ent["B"]
+            if want is None or ref is None:
+                # the command was (re)done in the middle of a delay block: no quiescent state was recorded for it
+                ctx.count("not_compared_state_recorded_inside_delay_block")
+                if op == "redo":
+                    ent["rebase"] = True
                 return
-            if set(start_diff) <= {"edit_subset", "mode"}:
-                ignore = ("edit_subset", "mode")
-                ent["partial"] = True
-                ctx.count("undo_compared_without_edit_subset_and_mode")
-            else:
-                ctx.count("undo_not_compared_state_before_differs_from_recorded")
-                return
+            start_diff = diff_fields(before[0], ref[0])
+            if start_diff:
+                if op == "redo":
+                    # redo re-executes the command under the current mode / edit subset: nothing can be demanded; re-base
+                    ctx.count("redo_not_compared_state_before_differs_from_recorded")
+                    ent["rebase"] = True
+                    return
+                if set(start_diff) <= {"edit_subset", "mode"}:
+                    ignore = ("edit_subset", "mode")
+                    ent["partial"] = True
+                    ctx.count("undo_compared_without_edit_subset_and_mode")
+                else:
+                    ctx.count("undo_not_compared_state_before_differs_from_recorded")
+                    return
         self.comparisons += 1
         ctx.count("compared_" + op)
         ctx.count("compared_%s_%s" % (op, ent["cmd"]))
@@ -534,7 +668,12 @@ class World:
                           {"expected": [wl["labels"][i], wl["styles"][i][0]], "observed": [al["labels"][i], al["styles"][i][0]]}, stop=False)
         # dataset order, compared on its own and only if it was as recorded just before this step
         start = ent["A"] if op == "undo" else ent["B"]
-        if self.order_deviated or before[1]["dataset_order"] != start[1]["dataset_order"]:
+        if block is not None:
+            # several commands ran: an order difference cannot be attributed to one of them; only remember that it happened
+            if al["dataset_order"] != wl["dataset_order"]:
+                self.order_deviated = True
+            ctx.count("dataset_order_not_compared_after_delay_block")
+        elif start is None or self.order_deviated or before[1]["dataset_order"] != start[1]["dataset_order"]:
             ctx.count("dataset_order_not_compared_already_deviating")
         elif al["dataset_order"] != wl["dataset_order"]:
             self.order_deviated = True     # recorded orders are stale from here on; order is no longer compared in this history
@@ -548,6 +687,8 @@ class World:
 
     def fail(self, kind, keys, detail, stop=True):
         sig = {"kind": kind, "step": self.info.get("step"), "cmd": self.info.get("cmd")}
+        if self.info.get("in_delay_block"):
+            sig["in_delay_block"] = True
         sig.update(keys)
         detail = dict(detail)
         detail["setup_and_history_so_far"] = list(self.executed)
@@ -597,7 +738,12 @@ MULTI_SECOND = [[k, m] for k in (1, 4, 2, 10) for m in ("or", "and", "xor", "and
 MULTI_PATTERNS = ["u", "uur", "uurru", "uuurr"]
 # empty family: every dataset is removed through commands, selections are applied to the empty collection, then walks that
 # end with the datasets back in the collection
-EMPTY_SEL = [[k, m] for k in (1, 4, 2, 10) for m in (None, "replace", "new", "or")]      # (set-ups, commands, patterns) used for 3-command prefixes
+EMPTY_SEL = [[k, m] for k in (1, 4, 2, 10) for m in (None, "replace", "new", "or")]
+# delayed family: 2-6 stack operations inside ONE hub.delay_callbacks() block while a subset group exists
+DELAY_CMDS = [["add", "d2"], ["rem", "d1"], ["apply", 4, None], ["roi", 0], ["apply", 1, "new"]]
+DELAY_PRE = ["", "u", "uu"]
+DELAY_BLOCKS = ["rur", "uru", "ur", "rr", "uur", "ruru", "rruu", "rurur", "ururur"]
+DELAY_SETUPS = ["one_group_edited", "two_groups_one_edited_and"]      # (set-ups, commands, patterns) used for 3-command prefixes
 N_BOUND = {"quick": 24, "thorough": 96}
 BLOCK = 20
 EXHAUSTIVE = {"quick": False, "thorough": False}
@@ -625,6 +771,7 @@ def _streams(tier, seed):
     out.append([["walk", i] for i in range(0, N_WALK[tier], BLOCK)])
     out.append([["multi", si, mv, a] for si in range(2) for mv in range(2) for a in range(len(MULTI_SECOND))])
     out.append([["emptysel", si, a] for si in range(2) for a in range(len(EMPTY_SEL))])
+    out.append([["delayed", si, a] for si in range(len(DELAY_SETUPS)) for a in range(len(DELAY_CMDS))])
     out.append([["wide", i] for i in range(0, N_WIDE[tier], BLOCK)])
     out.append([["walk2", si, a] for si in range(len(WALK_SETUPS)) for a in range(len(WALK_CMDS))])
     ns, nc, _ = WALK3[tier]
@@ -640,7 +787,7 @@ def cases(tier, seed):
     total = sum(len(s) for s in streams)
     # small families that a verdict needs (floors) advance ten times faster, so that even a run that the machine load cuts
     # to a tenth of the workload has completed them
-    speed = [10.0 if s[0][0] in ('bound', 'walk2', 'walk3', 'multi', 'emptysel') else 1.0 for s in streams]
+    speed = [10.0 if s[0][0] in ('bound', 'walk2', 'walk3', 'multi', 'emptysel', 'delayed') else 1.0 for s in streams]
     for _ in range(total):
         k = min((i for i in range(len(streams)) if pos[i] < len(streams[i])), key=lambda i: (pos[i] / len(streams[i]) / speed[i], i))
         yield streams[k][pos[k]]
@@ -723,6 +870,17 @@ def wide_history(rng):
             out.append(tok)
         else:
             out.append(tok)
+    if rng.random() < 0.5:
+        # wrap a run of 2-6 consecutive stack operations into one delay block
+        stackops = ("undo", "redo", "add", "rem", "apply", "roi")
+        starts = [i for i in range(len(out) - 1) if out[i][0] in stackops and out[i + 1][0] in stackops]
+        if starts:
+            i = rng.choice(starts)
+            j = i
+            while j < len(out) and out[j][0] in stackops and j - i < rng.randint(2, 6):
+                j += 1
+            if j - i >= 2:
+                out = out[:i] + [["delay", out[i:j]]] + out[j:]
     return out
 
 
@@ -775,6 +933,27 @@ def run_case(ctx, case):
             for pat in MULTI_PATTERNS:
                 hist = cmds + [["undo"] if c == "u" else ["redo"] for c in pat]
                 run_history(ctx, setup_name, hist, "multi_or_enumerated", use_app=(a + len(pat)) % 2 == 1)
+    elif case[0] == "delayed":
+        _, si, a = case
+        ur = {"u": ["undo"], "r": ["redo"]}
+        for b in [None, 0, 1, 2]:
+            cmds = [DELAY_CMDS[a]] + ([DELAY_CMDS[b]] if b is not None else [])
+            for pre in DELAY_PRE:
+                for blk in DELAY_BLOCKS:
+                    hist = cmds + [ur[c] for c in pre] + [["delay", [ur[c] for c in blk]]] + [["undo"], ["redo"]]
+                    run_history(ctx, DELAY_SETUPS[si], hist, "delay_block_enumerated", use_app=(a + len(blk)) % 2 == 1)
+            # new commands inside the block as well
+            for blk in (["D", "u"], ["D", "u", "r"], ["u", "D"], ["D", "D", "u", "u", "r"]):
+                sub = []
+                k = 0
+                for c in blk:
+                    if c == "D":
+                        sub.append(DELAY_CMDS[(a + 1 + k) % len(DELAY_CMDS)])
+                        k += 1
+                    else:
+                        sub.append(ur[c])
+                hist = cmds + [["delay", sub], ["undo"], ["undo"], ["redo"]]
+                run_history(ctx, DELAY_SETUPS[si], hist, "delay_block_enumerated", use_app=a % 2 == 1)
     elif case[0] == "emptysel":
         _, si, a = case
         setup_name = ["one_group_edited", "data_only"][si]
@@ -828,7 +1007,11 @@ def floors(counters, tier):
             "failing_do_raised": 60,
             # third round: reference-holding states under combining modes; selections on an empty collection
             "histories_multi_or_enumerated": 300, "histories_empty_collection_enumerated": 150,
-            "histories_with_selection_on_empty_collection": 300, "selection_applied_to_empty_collection": 400}
+            "histories_with_selection_on_empty_collection": 300, "selection_applied_to_empty_collection": 400,
+            # fourth round: stack operations inside one delay block
+            "histories_delay_block_enumerated": 400, "delay_blocks_run": 500, "compared_after_delay_block": 300,
+            "compared_after_delay_block_ending_in_redo": 80, "compared_after_delay_block_ending_in_undo": 80,
+            "compared_after_delay_block_moving_datasets_with_groups_present": 60}
     # the thorough tier demands what the quick tier demands: on a machine loaded by other checks its time cap may leave it
     # little more work than quick
     for k, v in need.items():
